@@ -62,15 +62,13 @@ class EECC(Network):
         idxs = set(range(len(C))) - set(indxs)
 
         C = [C[i] for i in idxs]
-        C = [list(item) for item in set(tuple(row) for row in C)]
+        C = [list(item) for item in set(tuple(sorted(row)) for row in C)]
 
         # small difference in key for sort
         for i, c in enumerate(C):
             C[i] = sorted(c)
 
-        return sorted(
-            C, key=lambda x: (-len(x), x[0], x[1]) if len(x) > 1 else (-len(x), x[0], 0)
-        )
+        return sorted(C, key=lambda x: (-len(x), x))
 
     def compute_scores(
         self, C: list, EC: list, ord: list, r: list, indexes: list
